@@ -148,6 +148,16 @@ def run(R):
 
     # ---- wait observes zero --------------------------------------------------------------------------------------
     n = 0
+    n = wait_zero(R, "C02.wait-zero", WHY)
+    R.need("C02.wait-zero", n, 6, "wait / tryWait / destructor")
+
+
+def wait_zero(R, inst, why):
+    """TaskSet/ConcurrentTaskSet::wait return only on an edge where an *acquire* load of the outstanding
+    counter read zero (that load is what orders the tasks' writes before the code after wait());
+    tryWait returns true only under that observation; the destructors wait. Shared by C02 and C16."""
+    F = R.F
+    n = 0
     for q in ("dispenso::TaskSet::wait", "dispenso::ConcurrentTaskSet::wait"):
         for fn in F.functions(qname=q):
             n += 1
@@ -160,12 +170,12 @@ def run(R):
                     a = strip_casts(at)
                     if is_atomic_node(F, fn, a, CNT, ("load", "operator(conv)")) and not pol and order_at_least(a["atomic"]["orders"][0], "acquire"):
                         ok = True
-                    c = comparison_of(at, pol, lambda x: is_atomic_node(F, fn, x, CNT, ("load",)))
-                    if c and c[0] == "==" and const_val(c[1]) == 0:
+                    c = comparison_of(at, pol, lambda x: is_atomic_node(F, fn, x, CNT, ("load", "operator(conv)")))
+                    if c and c[0] == "==" and const_val(c[1]) == 0 and order_at_least(strip_casts(c[2])["atomic"]["orders"][0], "acquire"):
                         ok = True
                 allok = allok and ok
                 det.append("return@%s %s" % (e.get("loc", "").rsplit(":", 2)[-2], "after acquire load == 0" if ok else "NOT guarded by counter == 0"))
-            R.ob("C02.wait-zero", fn, fn.loc, allok, "; ".join(det), sitekey="wait", why=WHY)
+            R.ob(inst, fn, fn.loc, allok, "; ".join(det), sitekey="wait", why=why)
     for q in ("dispenso::TaskSet::tryWait", "dispenso::ConcurrentTaskSet::tryWait"):
         for fn in F.functions(qname=q):
             n += 1
@@ -178,12 +188,12 @@ def run(R):
                     if is_atomic_node(F, fn, a, CNT, ("load", "operator(conv)")) and not pol and order_at_least(a["atomic"]["orders"][0], "acquire"):
                         ok = True
                 allok = allok and ok
-            R.ob("C02.wait-zero", fn, fn.loc, allok, "a possibly-true return is reached only after an acquire load of the counter read zero" if allok else "tryWait can return true with tasks outstanding",
-                 sitekey="tryWait", why=WHY)
+            R.ob(inst, fn, fn.loc, allok, "a possibly-true return is reached only after an acquire load of the counter read zero" if allok else "tryWait can return true with tasks outstanding",
+                 sitekey="tryWait", why=why)
     for q in ("dispenso::TaskSet::(dtor)", "dispenso::ConcurrentTaskSet::(dtor)"):
         for fn in F.functions(qname=q):
             n += 1
             ws = [(p, e) for p, e in fn.events() if e.get("k") == "call" and e.get("name") == "wait"]
             ok = bool(ws) and fn.path_to_exit_avoiding(Pos(fn.entry, -1), lambda p, e: e.get("k") == "call" and e.get("name") == "wait") is None
-            R.ob("C02.wait-zero", fn, fn.loc, ok, "destructor waits on every path" if ok else "destructor can return without waiting", sitekey="dtor", why=WHY)
-    R.need("C02.wait-zero", n, 6, "wait / tryWait / destructor")
+            R.ob(inst, fn, fn.loc, ok, "destructor waits on every path" if ok else "destructor can return without waiting", sitekey="dtor", why=why)
+    return n
